@@ -732,6 +732,8 @@ func (a *AddrManager) Name() string {
 }
 
 func (a *AddrManager) Remarks() string {
+	a.mu.Lock()
+	defer a.mu.Unlock()
 	return a.remark
 }
 
